@@ -957,6 +957,36 @@ func shareOwnershipSweep(ctx context.Context, thorough bool) ([]string, int, err
 				seen[sk.SerializeToHexStr()] = cid
 			}
 		}
+		// a configured peer that is NOT a participant of the generation gets nobody's share
+		if len(ids) >= 3 {
+			inner := ids[:len(ids)-1]
+			outsider := ids[len(ids)-1]
+			ieps := eps[:len(eps)-1]
+			R := c.Nodes[inner[0]]
+			if err := R.Process.OnPrepare(ctx, inner[0], "Wallet 3/own2", []byte("pass"), uint32(len(inner)/2+1), ieps); err == nil {
+				var pre *standardprocess.VerifSession
+				for _, s := range R.Process.VerifSessions() {
+					if s.Account == "Wallet 3/own2" {
+						s := s
+						pre = &s
+					}
+				}
+				share, vv := harnessContribution(len(inner)/2+1, inner[0], "")
+				req := &pb.ContributeRequest{Account: "Wallet 3/own2", Secret: share.Serialize()}
+				for i := range vv {
+					req.VerificationVector = append(req.VerificationVector, vv[i].Serialize())
+				}
+				res, err := R.Receiver.Contribute(ctxWithClient(ctx, nodeName(outsider), ""), req)
+				pairs++
+				if err == nil && pre != nil {
+					for id, d := range pre.Dealt {
+						if sameBytes(d, res.GetSecret()) {
+							fails = append(fails, fmt.Sprintf("ownership: peer %d, not a participant of the generation, received the share dealt to participant %d by %d", outsider, id, inner[0]))
+						}
+					}
+				}
+			}
+		}
 		c.Close(ctx)
 	}
 	return fails, pairs, nil
